@@ -5,6 +5,8 @@
 
 package netann
 
+//@ load-pkg github.com/lightningnetwork/lnd/lnwire
+
 //@ func validateChannelAnn1
 //@   props C20
 //@   bounds-safe
